@@ -17,13 +17,17 @@ class MessageHead(packet.Packet):
         ''' remove padding from payload list after disect() completes '''
         formats.remove_padding(self)
 
-        if not self.payload:
-            msgcls = self.guess_payload_class(b'')
+        msgcls = self.guess_payload_class(b'')
+        if msgcls is self.default_payload_class(b''):
+            # an unknown message type has no framing to wait for,
+            # it is passed on as it is to be rejected
+            pass
+        elif not self.payload:
             if msgcls.fields_desc:
                 raise formats.VerifyError('Message without payload')
             # a message type with no fields is complete with its header alone
             self.add_payload(msgcls())
-        if isinstance(self.payload, packet.Raw):
+        elif isinstance(self.payload, packet.Raw):
             raise formats.VerifyError('Message with improper payload')
 
         packet.Packet.post_dissection(self, pkt)
